@@ -6,12 +6,15 @@ import (
 	"verif/sim/props/c06"
 	"verif/sim/props/c07"
 	"verif/sim/props/c17"
+	"verif/sim/props/cmdsim"
 )
 
 func main() {
 	kernel.Main(map[string]kernel.Property{
 		"C06": c06.Prop{},
 		"C07": c07.Prop{},
+		"C15": cmdsim.C15{},
+		"C16": cmdsim.C16{},
 		"C17": c17.Prop{},
 	})
 }
